@@ -153,6 +153,23 @@ Theorem renamed_import_fixed :
   rv_name v = lit "A2" /\ rv_from v = lit "a" /\ rv_dom v = true /\ rv_known v = None /\ rv_imported v = true.
 Proof. split; [vm_compute; reflexivity|]. from_eval renamed_eval. Qed.
 
+(* the boundary of the named half of the domain (one_generated_name): crate a has TWO types with the Rust name A2 - in two
+   modules of a/src/lib.rs -, one generated as A2, one as A2Other.  Typeshare knows types by their bare names: the rename
+   table holds A2 -> A2Other for crate a, so the reference of my-crate is rewritten to A2Other and (since the /repo fix of
+   C14-renamed-import) the import follows it, while the specification's renamed_in names the first, A2.  The reference is
+   outside dom_C14 and in no finding class; nothing is claimed about it. *)
+Definition w_a_two : ws_entry := w_entry (lit "a") (w_file
+  [INest [w_struct [] (lit "A2") [w_fld (lit "x") (w_ty (lit "u8"))]];
+   INest [w_struct [w_rename (lit "A2Other")] (lit "A2") [w_fld (lit "y") (w_ty (lit "u8"))]]]
+  [[lit "typeshare"]; [lit "u8"]; [lit "serde"]]).
+Definition ws_two_names : list ws_entry := [w_a_two; w_b [w_use (lit "a") (lit "A2")] (lit "A2")].
+Lemma two_names_eval :
+  one_generated_name (c14_infos uc_exec [] ws_two_names) (lit "a") (lit "A2") = false /\
+  renamed_in (c14_infos uc_exec [] ws_two_names) (lit "a") (lit "A2") = lit "A2" /\
+  w_run idl idl ws_two_names MY = Some ([(lit "a", lit "A2Other")], [(lit "A2", lit "a", false, None, false)]) /\
+  w_field_types ws_two_names MY = [RSimple (lit "A2Other")].
+Proof. repeat split; vm_compute; reflexivity. Qed.
+
 Theorem glob_fixed : exists arrivals pd v,
   parse_workspace uc_exec [] [] (fun l => l) ws_glob = Ok arrivals /\
   In (MY, pd) (multi_crates idl arrivals) /\
